@@ -107,6 +107,7 @@ def canon_blocks(tree):
     * `if c: ...; return/raise/continue/break  else: REST` (and the same spelled as an elif chain) is read as `if c: ...` followed by REST;
     * `t = E; return t` with t used nowhere else in the function is read as `return E`;
     * an annotated assignment of a local name is read as a plain assignment, and a `pass` that is not the only statement of its block is dropped;
+    * `x = A if c else B` is read as `if c: x = A  else: x = B`;
     * `t = g(...); x = f(..., t, ...)` with t used nowhere else is read as `x = f(..., g(...), ...)` (a temporary introduced for a nested call)."""
     def flatten(stmts):
         out = []
@@ -123,6 +124,11 @@ def canon_blocks(tree):
         for s in stmts:
             if isinstance(s, ast.AnnAssign) and s.value is not None and s.simple and isinstance(s.target, ast.Name):
                 s = ast.copy_location(ast.Assign(targets=[s.target], value=s.value, type_comment=None), s)
+            if isinstance(s, ast.Assign) and isinstance(s.value, ast.IfExp) and len(s.targets) == 1 and isinstance(s.targets[0], ast.Name):
+                # `x = A if c else B` is read as `if c: x = A  else: x = B`
+                t2 = ast.Name(id=s.targets[0].id, ctx=ast.Store())
+                s = ast.copy_location(ast.If(test=s.value.test, body=[ast.copy_location(ast.Assign(targets=[s.targets[0]], value=s.value.body, type_comment=None), s)],
+                                             orelse=[ast.copy_location(ast.Assign(targets=[ast.copy_location(t2, s)], value=s.value.orelse, type_comment=None), s)]), s)
             out.append(s)
         kept = [s for s in out if not isinstance(s, ast.Pass)]
         return kept if kept else out[:1]
